@@ -38,3 +38,31 @@ Definition run_vfdiff_f (body : bool) (d : float) (w : nat) (mp : option nat) (x
   enc_outcome_f (ts_vfdiff (DT := IsNoneF64) body d w mp xs).
 Definition run_vfdiff_o (body : bool) (d : float) (w : nat) (mp : option nat) (xs : list (option float)) : list Z :=
   enc_outcome_f (ts_vfdiff (DT := IsNoneOptF64) body d w mp xs).
+
+(* ---- audit (notes/C01.md): integer output element types.  The closures end in `res.cast()` (f64: Cast<U>): U = i32 is
+   Rust's saturating `as i32` (NaN -> 0: the min_periods mask is LOST in a plain-integer output), U = Option<i32> maps
+   NaN to None and everything else through `as i32`.  The cast is the one of Model/Cast.v (C15) at the float instance of
+   Run/RunC15.v. *)
+From Tevec Require Import Model.Cast Run.RunC15.
+Definition feat_outcome {T} (D : IsNone T float) (fn : Z) (body : bool) (w : nat) (mp : option nat)
+           (xs : list T) : outcome float :=
+  (match fn with
+   | 0 => ts_run (ts_vsum_f (DT := D) w mp) body w xs
+   | 1 => ts_run (ts_vmean_f (DT := D) w mp) body w xs
+   | 2 => ts_run (ts_vewm_f (DT := D) w mp) body w xs
+   | 3 => ts_run (ts_vwma_f (DT := D) w mp) body w xs
+   | 4 => ts_run (ts_vstd_f (DT := D) w mp) body w xs
+   | 5 => ts_run (ts_vvar_f (DT := D) w mp) body w xs
+   | 6 => ts_run (ts_vskew_f (DT := D) w mp) body w xs
+   | _ => ts_run (ts_vkurt_f (DT := D) w mp) body w xs
+   end)%Z.
+Definition out_i32 (x : float) : list Z := c_int (f2i XF I32 x).
+Definition out_oi32 (x : float) : list Z := if PrimFloat.is_nan x then c_null else c_int (f2i XF I32 x).
+Definition enc_outcome_with (c : float -> list Z) (o : outcome float) : list Z :=
+  match o with
+  | Done l => cells c l
+  | Uninit buf => flat_map (fun x => match x with Some v => c v | None => c_uninit end) buf
+  | Panicked k => c_panic k
+  end.
+Definition run_feat_f_i32 (fn : Z) body w mp (xs : list float) := enc_outcome_with out_i32 (feat_outcome IsNoneF64 fn body w mp xs).
+Definition run_feat_f_oi32 (fn : Z) body w mp (xs : list float) := enc_outcome_with out_oi32 (feat_outcome IsNoneF64 fn body w mp xs).
